@@ -61,9 +61,9 @@ pub fn run() {
         ("utxo ref as string without #", Box::new(|| { let mut t = base_tx(); t.references.push(E::String("abcd".into())); compile(t) })),
         ("utxo ref as string with bad hex", Box::new(|| { let mut t = base_tx(); t.references.push(E::String("zz#1".into())); compile(t) })),
         ("utxo ref as string with bad index", Box::new(|| { let mut t = base_tx(); t.references.push(E::String("abcd#x".into())); compile(t) })),
-        ("publish directive with version but script None-coercible? (script missing handled) version 0 bad cbor", Box::new(|| { let mut t = base_tx(); t.adhoc.push(AdHocDirective{ name: "cardano_publish".into(), data: HashMap::from([("to".to_string(), E::Address(addr(ADDR_A))), ("amount".to_string(), ada(1)), ("version".to_string(), num(0)), ("script".to_string(), E::Bytes(vec![0xff]))]) }); compile(t) })),
-        ("vote delegation directive without stake", Box::new(|| { let mut t = base_tx(); t.adhoc.push(AdHocDirective{ name: "vote_delegation_certificate".into(), data: HashMap::from([("drep".to_string(), E::Bytes(vec![1;28]))]) }); compile(t) })),
-        ("vote delegation directive without drep", Box::new(|| { let mut t = base_tx(); t.adhoc.push(AdHocDirective{ name: "vote_delegation_certificate".into(), data: HashMap::from([("stake".to_string(), E::Address(addr(ADDR_A)))]) }); compile(t) })),
+        ("publish directive with version but script None-coercible? (script missing handled) version 0 bad cbor", Box::new(|| { let mut t = base_tx(); t.adhoc.push(AdHocDirective{ name: "cardano_publish".into(), data: BTreeMap::from([("to".to_string(), E::Address(addr(ADDR_A))), ("amount".to_string(), ada(1)), ("version".to_string(), num(0)), ("script".to_string(), E::Bytes(vec![0xff]))]) }); compile(t) })),
+        ("vote delegation directive without stake", Box::new(|| { let mut t = base_tx(); t.adhoc.push(AdHocDirective{ name: "vote_delegation_certificate".into(), data: BTreeMap::from([("drep".to_string(), E::Bytes(vec![1;28]))]) }); compile(t) })),
+        ("vote delegation directive without drep", Box::new(|| { let mut t = base_tx(); t.adhoc.push(AdHocDirective{ name: "vote_delegation_certificate".into(), data: BTreeMap::from([("stake".to_string(), E::Address(addr(ADDR_A)))]) }); compile(t) })),
         ("missing cost model", Box::new(|| { let mut c = compiler(44,155381,None); match c.compile(&AnyTir::V1Beta0(base_tx())) { Ok(_) => "Ok".into(), Err(e) => format!("Err({e})") } })),
         ("spend redeemer whose utxo is not in body inputs (input utxos error dropped by flat_map)", Box::new(|| { let mut t = base_tx(); t.inputs.push(Input{ name: "a".into(), utxos: E::UtxoRefs(vec![]), redeemer: num(1) }); compile(t) })),
         ("constructor index near u64::MAX", Box::new(|| { let mut t = base_tx(); t.outputs[0].datum = E::Struct(StructExpr{ constructor: usize::MAX - 10, fields: vec![] }); compile(t) })),
@@ -82,7 +82,7 @@ pub fn run() {
         ("input with 3-byte txid", Box::new(|| { let mut t = base_tx(); t.inputs.push(Input{ name: "a".into(), utxos: E::UtxoRefs(vec![UtxoRef{ txid: vec![1,2,3], index: 0 }]), redeemer: E::None }); compile(t) })),
         ("reference with 3-byte txid", Box::new(|| { let mut t = base_tx(); t.references.push(E::UtxoRefs(vec![UtxoRef{ txid: vec![1,2,3], index: 0 }])); compile(t) })),
         ("collateral with 3-byte txid", Box::new(|| { let mut t = base_tx(); t.collateral.push(Collateral{ utxos: E::UtxoRefs(vec![UtxoRef{ txid: vec![1,2,3], index: 0 }]) }); compile(t) })),
-        ("vote delegation with 3-byte drep", Box::new(|| { let mut t = base_tx(); t.adhoc.push(AdHocDirective{ name: "vote_delegation_certificate".into(), data: HashMap::from([("drep".to_string(), E::Bytes(vec![1;3])), ("stake".to_string(), E::Address(addr(ADDR_A)))]) }); compile(t) })),
+        ("vote delegation with 3-byte drep", Box::new(|| { let mut t = base_tx(); t.adhoc.push(AdHocDirective{ name: "vote_delegation_certificate".into(), data: BTreeMap::from([("drep".to_string(), E::Bytes(vec![1;3])), ("stake".to_string(), E::Address(addr(ADDR_A)))]) }); compile(t) })),
         ("build script address from 3-byte Hash expr", Box::new(|| { let c = cm_compiler(); reduce_op(CompilerOp::BuildScriptAddress(E::Hash(vec![1,2,3])), &c) })),
     ];
     for (name, f) in cases {
